@@ -289,7 +289,14 @@ func c12Restore(backend string, cp *c12cp, meta *checkpoint.Metadata, c kv.Conte
 	if err := ndb.Finalize([]node.Root{root}); err != nil {
 		return "Finalize after restore failed: " + err.Error()
 	}
-	return readBack(ndb, root, c)
+	if w := readBack(ndb, root, c); w != "" {
+		return w
+	}
+	if len(c) <= 13 {
+		// the restored database stays usable (a later aborted multipart session, a next version)
+		return c12After(ndb, root, c)
+	}
+	return ""
 }
 
 func checkDone(done bool, fed, total int, ndb dbapi.NodeDB, root node.Root) string {
